@@ -149,6 +149,25 @@ func propSpecs() map[string]*PropSpec {
 		RunFn: func(r *Runner) {
 			r.modeB("derive", "^VX_C08_", true, DefaultBounds)
 		}})
+	add(&PropSpec{ID: "C12", Title: "Prefix customisation only renames", Level: "other",
+		Outside: []string{"textual identity of the output under -prefix", "more than 4 plugins / prefixes outside the alphabet"},
+		RunFn: func(r *Runner) {
+			f := "^VX_C12_dispatch_N[23]$"
+			if r.Tier == "thorough" {
+				f = "^VX_C12_"
+			}
+			r.modeB("derive", f, true, DefaultBounds)
+			b := DefaultBounds
+			b.Unwind = 40
+			// main() cannot be replayed natively under `go test` (it parses the test binary's flags and calls the real
+			// loader): counterexamples of the main_* harnesses are confirmed through the public API instead
+			r.ReplayOverride = func(hr *HarnessResult) string { return c12PublicAPI(r, hr.Name) }
+			r.modeB(".", "^VX_C12_main_", true, b, "derive")
+			r.ReplayOverride = nil
+		}})
+	add(&PropSpec{ID: "C09", Title: "Every run ends cleanly: success, or a diagnostic, never a crash or bad file", Level: "other",
+		Outside: []string{"termination and absence of Go panics for every input program", "well-formedness of emitted text in general", "diagnostic wording"},
+		RunFn: runC09})
 	add(&PropSpec{ID: "C01", Title: "Successful generation yields a complete, type-correct package", Level: "other",
 		Outside: []string{"type-checks for EVERY program: only the corpus instantiations are generated and type-checked", "reflect/unsafe access path for unexported fields of imported structs"},
 		RunFn: func(r *Runner) {
